@@ -203,6 +203,23 @@ structure PlugSplitOK (s : Split) (R R' : Registry) (plug : Plug) : Prop where
   types_other : ∀ x ∈ R.mods, x.seq ≠ s.m.seq → ∀ (scope : List Stmt) (t : Stmt),
     plug.tres.resolve R' x scope t = plug.tres.resolve R x scope t
 
+/-! ### the relation between the two registries -/
+
+/-- **`R'` is `R` with the module `s.m` split** into the owner `s.owner` and the submodules
+`s.subs`, such that every part sees every top-level grouping of `m` under goyang's rules, the plugged
+layers answer alike, and both registries satisfy the well-formedness and size conditions above. -/
+structure IsSplitOf (s : Split) (R R' : Registry) (plug : Plug) : Prop where
+  text : TextOK s
+  regs : RegsOK s R R'
+  visible : Visible s R' (linkAll R').1
+  plugOK : PlugSplitOK s R R' plug
+  pos : PosWF R
+  pos' : PosWF R'
+  refs : RefsWF R
+  refs' : RefsWF R'
+  fuel : LookupFuelOK R
+  fuel' : LookupFuelOK R'
+
 /-! ### the result -/
 
 /-- Equal data but for the statement object and the module number it belongs to. -/
